@@ -28,7 +28,34 @@ MSAN_BIN = os.path.join(MSAN_TARGET, ASAN_TRIPLE, "debug", "footprint")
 MSAN_CMD = ("RUSTFLAGS='-Zsanitizer=memory --cfg lm_msan' cargo +nightly build -Zbuild-std --offline --target %s "
             "--target-dir %s --bin footprint" % (ASAN_TRIPLE, MSAN_TARGET))
 
-_state = {"asan": None, "msan": None}
+# plain build at opt-level 0 (the guard-page children): harness/Cargo.toml has opt-level 1 for the dev profile, and
+# the optimiser deletes loads whose value is never used (seeded change C06/5: a software-pipelined kernel fetching
+# one row too many is invisible at opt-level >= 1); the profile is overridden through the environment, own target dir
+O0_TARGET = os.path.join(C.BUILD, "cargo-o0") if C.ALT is None else os.path.join(C.BUILD, C.ALT, "cargo-o0")
+O0_BIN = os.path.join(O0_TARGET, "debug", "footprint")
+O0_CMD = "CARGO_PROFILE_DEV_OPT_LEVEL=0 cargo build --offline --target-dir %s --bin footprint" % O0_TARGET
+
+_state = {"asan": None, "msan": None, "o0": None}
+
+
+def build_o0(timeout=1800):
+    """Plain (uninstrumented, guard-page allocator) build of the harness and the library at opt-level 0."""
+    if _state["o0"] is not None:
+        return _state["o0"]
+    t0 = time.time()
+    hb = C.build_harness("footprint")
+    if not hb["ok"]:
+        _state["o0"] = dict(ok=False, log="plain harness build failed:\n" + hb["log"][-3000:], path=O0_BIN, wall=0)
+        return _state["o0"]
+    env = dict(C.ENV)
+    env.pop("CARGO_TARGET_DIR", None)
+    env["CARGO_PROFILE_DEV_OPT_LEVEL"] = "0"
+    cmd = "cargo build --offline --target-dir %s --bin footprint" % O0_TARGET
+    with C.Lock("cargo-o0" if C.ALT is None else "cargo-o0-" + C.ALT):
+        rc, out = C.sh(cmd, cwd=C.harness_dir(), timeout=timeout, env=env)
+    ok = rc == 0 and os.path.exists(O0_BIN)
+    _state["o0"] = dict(ok=ok, log=out, path=O0_BIN, wall=time.time() - t0)
+    return _state["o0"]
 
 
 def build_msan(timeout=2400):
@@ -62,8 +89,12 @@ def build_asan(timeout=1800):
     env.pop("CARGO_TARGET_DIR", None)
     env["RUSTFLAGS"] = "-Zsanitizer=address --cfg lm_asan"
     cmd = "cargo +nightly build --offline --target %s --target-dir %s --bin footprint" % (ASAN_TRIPLE, ASAN_TARGET)
+    # the dev-profile sanitizer build is made at opt-level 0 (every load of the source is executed and
+    # instrumented: dead loads into poisoned spare capacity are reports); the optimised code is the --release build
+    env0 = dict(env)
+    env0["CARGO_PROFILE_DEV_OPT_LEVEL"] = "0"
     with C.Lock("cargo-asan" if C.ALT is None else "cargo-asan-" + C.ALT):
-        rc, out = C.sh(cmd, cwd=C.harness_dir(), timeout=timeout, env=env)
+        rc, out = C.sh(cmd, cwd=C.harness_dir(), timeout=timeout, env=env0)
         # ... and once more in release mode (opt-level 3, no overflow checks, no debug assertions)
         rc2, out2 = C.sh(cmd + " --release", cwd=C.harness_dir(), timeout=timeout, env=env)
     ok = rc == 0 and os.path.exists(ASAN_BIN) and rc2 == 0 and os.path.exists(ASAN_REL_BIN)
@@ -78,6 +109,28 @@ def setup_extra():
     C.log("harness footprint (AddressSanitizer): %s (%.0fs)" % ("ok" if r["ok"] else "FAILED", r["wall"]))
     if not r["ok"]:
         raise RuntimeError(r["log"][-2000:])
+    o = build_o0()
+    C.log("harness footprint (plain, opt-level 0): %s (%.0fs)" % ("ok" if o["ok"] else "FAILED", o["wall"]))
+    if not o["ok"]:
+        raise RuntimeError(o["log"][-2000:])
+
+
+def _translate():
+    """Source tie of the footprint model (pinned statements) + the translator of the imported group pyidx
+    (coq/pyidx/GenSlots.v: shape/strides formulas of the `__getbuffer__`s, about which C06b.v's
+    fp_py_*_view_inside_rows speak) — pyidx is not in vlib.common.GROUP_TRANSLATORS, so it is run here."""
+    r = footprint_src.translate()
+    try:
+        from translate import pyidx_slots
+        t = pyidx_slots.translate()
+        r.setdefault("notes", []).extend("pyidx translator: " + n for n in t.get("notes", []))
+        if not t.get("ok", True):
+            r["ok"] = False
+            r.setdefault("errors", []).extend("pyidx translator (GenSlots.v): " + e for e in t.get("errors", ["failed"]))
+    except Exception as e:      # cannot parse lib.rs: a broken obligation, never a crash
+        r["ok"] = False
+        r.setdefault("errors", []).append("pyidx translator raised %r" % (e,))
+    return r
 
 
 def _extra(ctx):
@@ -94,10 +147,16 @@ def _extra(ctx):
         out.append(("INFRA", "MemorySanitizer build of the harness failed:\n" + m["log"][-3000:], ""))
     else:
         ctx["notes"].append("MSan build: %s (%.1fs)" % (MSAN_CMD, m["wall"]))
+    o = build_o0()
+    if not o["ok"]:
+        out.append(("INFRA", "opt-level 0 build of the harness failed:\n" + o["log"][-3000:], ""))
+    else:
+        ctx["notes"].append("plain opt-level 0 build (guard-page children): %s (%.1fs)" % (O0_CMD, o["wall"]))
     # self-test: the instrumented binary must report a deliberate heap over-read / misaligned
     # load made by the HARNESS itself (otherwise `asan=CLEAN` would mean nothing)
     env = dict(C.ENV)
     env["LM_FP_ASAN_BIN"] = r["path"]
+    env["LM_FP_O0_BIN"] = o["path"] if o["ok"] else ""
     rc, o = C.sh("%s selftest" % ctx["harness"]["path"], timeout=300, env=env)
     if rc != 0:
         out.append(("INFRA", "sanitizer self-test failed (rc=%d): %s" % (rc, o[-1500:]), ""))
@@ -212,7 +271,8 @@ SPEC = dict(
     nontrivial=nontrivial,
     histogram=histogram,
     signature=signature,
-    translate=footprint_src.translate,
+    more_props=[("C06b.v", "LMFootprint.C06b")],
+    translate=_translate,
     extra=_extra,
     setup_extra=setup_extra,
     rule="Cases: corpus/C06 (witnesses of the repaired over-reads F08/F09/F25 and boundary cases) + generated: 80% histories of "
@@ -310,6 +370,9 @@ def _refresh_replay(replay):
 def main(tier, seed, replay):
     if replay:
         replay = _refresh_replay(replay)
+    o = build_o0()
+    # (a failed build gives dbg=NOASAN verdicts: reported as a broken tie, and as INFRA by _extra)
+    C.ENV["LM_FP_O0_BIN"] = o["path"] if o["ok"] else "/nonexistent/footprint-o0"
     r = build_asan()
     if r["ok"]:
         # read by `footprint run` (vlib.common.run_sharded passes C.ENV to the children)
